@@ -59,7 +59,7 @@ def run(chk, binary, sched, label, module, consts, invariants, replay_kind, race
         rs["behaviours"] = [viol["cmds"]]
         chk.violation({"kind": replay_kind, "binary": binary, "module": module, "sched": rs,
                        "consts": {k: sorted(x) if isinstance(x, (set, frozenset)) else x
-                                  for k, x in consts.items() if not isinstance(x, vp.Sub)},
+                                  for k, x in consts.items() if not isinstance(x, (vp.Sub, vp.Raw))},
                        "invariants": list(invariants)}, why)
     return v, stats
 
